@@ -15,6 +15,7 @@ Rec == ndJsonDeserialize(IOEnv.TRACE)
 Batch == JsonDeserialize(IOEnv.SCRIPTS)
 T_Scripts == Batch.scripts
 T_Defects == {Batch.defects[i] : i \in 1..Len(Batch.defects)}
+T_Lines == <<>>      \* sessions: the "line" records carry their entry scripts
 
 VARIABLE l      \* next record to explain
 tvars == <<vars, l>>
@@ -151,6 +152,9 @@ TraceEnv ==
                 /\ pending'[i][1] = R.post.pending[i][1]
                 /\ pending'[i][2].expected = ToSet(R.post.pending[i][2])
 
+\* the host submitted the next line of a session (the record carries the line's entry script)
+TraceLine == R.k = "line" /\ SubmitLine(R.entry)
+
 TraceTick == R.k = "tick" /\ TickAny(R.d) /\ now' = R.now
 
 \* the end record: the model agrees on quiescence and on what the host was told
@@ -173,7 +177,7 @@ TraceInit == l = 2 /\ Rec[1].k = "init" /\
 TraceNext ==
   /\ l <= Len(Rec)
   /\ l' = l + 1
-  /\ (TraceReset \/ TraceWorker \/ TraceEnv \/ TraceTick \/ TraceEnd)
+  /\ (TraceReset \/ TraceWorker \/ TraceEnv \/ TraceTick \/ TraceLine \/ TraceEnd)
 
 TraceSpec == TraceInit /\ [][TraceNext]_tvars
 
